@@ -224,6 +224,7 @@ func Enum(c explore.Chooser) *prog.Program {
 		t2 = enumType(s, "T2", "Mode", "Md", "string")
 	}
 	reexport := s.Pick("root-const-of-sub-enum", "no", "yes")
+	aliasOther := s.Pick("alias-constant-in-other-file", "no", "yes")
 	reach := s.Pick("reach", "field", "slice-elem", "map-key", "map-value", "named-slice", "top-level-only")
 
 	var a, bfile, sub strings.Builder
@@ -280,6 +281,10 @@ func Enum(c explore.Chooser) *prog.Program {
 	if reexport == "yes" && loc == "sub-package" && strings.Contains(t1, "LvB") {
 		// the importing package declares a typed constant of the enum of the sub package
 		a.WriteString("const DefaultLevel = sub.LvB\n\n")
+	}
+	if aliasOther == "yes" && loc == "analysed-file" && strings.Contains(t1, "LvA") {
+		// an unexported constant equal to LvA, declared in the other file of the package
+		bfile.WriteString("const dfltLevel = LvA\n\n")
 	}
 	var fields []string
 	addRef := func(fname, ref string) {
